@@ -62,7 +62,10 @@ impl DatasetPreFilter {
     ) -> Self {
         let mut fragments = RoaringBitmap::new();
         if indices.iter().any(|idx| idx.fragment_bitmap.is_none()) {
-            fragments.insert_range(0..dataset.manifest.max_fragment_id.unwrap_or(0));
+            // The index may cover any fragment that existed: max_fragment_id is itself a valid id
+            if let Some(max_fragment_id) = dataset.manifest.max_fragment_id {
+                fragments.insert_range(0..=max_fragment_id);
+            }
         } else {
             indices.iter().for_each(|idx| {
                 fragments |= idx.fragment_bitmap.as_ref().unwrap();
